@@ -130,6 +130,19 @@ def eraseVersions (ans : String) : String :=
       | [a, b, c, d, e, f, g, h, i, _] => "/".intercalate [a, b, c, d, e, f, g, h, i, "*"]
       | _ => inst))
 
+/-- erase the `id` field of every instance encoding inside an answer (and forget the order of the
+instance lists, which the harness sorts by that field). -/
+def eraseIds (ans : String) : String :=
+  "#".intercalate ((ans.splitOn "#").map fun comp =>
+    match comp.splitOn "^" with
+    | [] => comp
+    | insts :: sfx =>
+      let l := (insts.splitOn ";").map fun inst =>
+        match inst.splitOn "/" with
+        | [_, b, c, d, e, f, g, h, i, j] => "/".intercalate ["*", b, c, d, e, f, g, h, i, j]
+        | _ => inst
+      "^".intercalate (";".intercalate (OracleC12.sortStr l) :: sfx))
+
 def kindOf (stepStr : String) : String :=
   match stepStr.splitOn "!" with
   | "U" :: k :: _ => "U" ++ k
@@ -158,12 +171,14 @@ def handleHist (f : List String) : String × String × String :=
       let js := (stepsL.zip (longL.zip freshL)).filterMap fun (sp, a, b) =>
         if a == b then none
         else if eraseVersions a == eraseVersions b then some "stale_versions"
+        else if eraseIds a == eraseIds b then some "stale_instance_id"
         else some ("stale_" ++ kindOf sp)
       let kinds := OracleC12.dedup (stepsL.map kindOf)
       let nU := (stepsL.filter (·.startsWith "U")).length
       let cmpKinds := OracleC12.dedup ((stepsL.zip longL).filterMap fun (sp, a) => if sp.startsWith "U" then some a else none)
       let hits := fin.hits
-      let tags := s!"k=hist za={za} steps={OracleC12.bucket stepsL.length} upd={OracleC12.bucket nU} cmp={"".intercalate cmpKinds} hits={OracleC12.bucket hits} kinds={kinds.length} triv={if nU ≤ 1 then 1 else 0}"
+      let noid := stepsL.any fun sp => (sp.splitOn "!").any (·.endsWith "~noid")
+      let tags := s!"k=hist noid={if noid then 1 else 0} za={za} steps={OracleC12.bucket stepsL.length} upd={OracleC12.bucket nU} cmp={"".intercalate cmpKinds} hits={OracleC12.bucket hits} kinds={kinds.length} triv={if nU ≤ 1 then 1 else 0}"
       (diff, OracleC12.reasons js, tags)
     | none => ("parse-error", "-", "-")
   | _ => ("bad-arity", "-", "-")
